@@ -61,6 +61,20 @@ impl std::ops::AddAssign for SeqAmt {
     }
 }
 
+/// The same sequence of pairs behind iterators whose size hints differ: exact, none at all, and legal but
+/// very loose upper bounds (a count of pairs says nothing about entity indices and is not bounded by the
+/// 2^24 indices a bit set can hold).
+fn dress(pairs: Vec<(Entity, SeqAmt)>, shape: usize) -> Box<dyn Iterator<Item = (Entity, SeqAmt)>> {
+    let mut it = pairs.into_iter();
+    match shape {
+        0 => Box::new(it),
+        1 => Box::new(std::iter::from_fn(move || it.next())),
+        2 => Box::new((0u32..u32::MAX).map_while(move |_| it.next())),
+        3 => Box::new((0usize..20_000_000).map_while(move |_| it.next())),
+        _ => Box::new((0u64..(1u64 << 40)).map_while(move |_| it.next()).filter(|_| true)),
+    }
+}
+
 struct St {
     world: World,
     ents: Vec<Entity>,
@@ -73,6 +87,7 @@ struct St {
     next: u32,
     max_run: u64,
     interleaved3: bool,
+    hint_shapes: BTreeSet<usize>,
 }
 
 const BOUNDARY: [u32; 10] = [0, 1, 63, 64, 65, 4095, 4096, 4097, 8191, 8192];
@@ -190,7 +205,7 @@ fn run_case(rep: &mut Report, case: u64) {
             }
         }
     }
-    let mut st = St { world, ents, cs: ChangeSet::new(), model: BTreeMap::new(), comp, hist: Vec::new(), rng: rng.clone(), next: 0, max_run: 0, interleaved3: false };
+    let mut st = St { world, ents, cs: ChangeSet::new(), model: BTreeMap::new(), comp, hist: Vec::new(), rng: rng.clone(), next: 0, max_run: 0, interleaved3: false, hint_shapes: BTreeSet::new() };
     st.hist.push(format!("setup: {} entities created, {} mentioned", n, st.ents.len()));
     let mut sig = Sig::default();
     let steps = st.rng.range(2, cfg.ops.max(3));
@@ -215,8 +230,10 @@ fn run_case(rep: &mut Report, case: u64) {
                         ids.push(a.val.id);
                         (*e, a)
                     }).collect();
-                    st.cs = it.into_iter().collect::<ChangeSet<SeqAmt>>();
-                    st.log(format!("collect({:?})", pairs.iter().map(|(e, x)| (e.id(), *x)).collect::<Vec<_>>()));
+                    let shape = if st.rng.chance(1, 2) { 0 } else { st.rng.below(5) };
+                    st.hint_shapes.insert(shape);
+                    st.cs = dress(it, shape).collect::<ChangeSet<SeqAmt>>();
+                    st.log(format!("collect[hint shape {}]({:?})", shape, pairs.iter().map(|(e, x)| (e.id(), *x)).collect::<Vec<_>>()));
                     for ((e, x), id) in pairs.iter().zip(ids) {
                         st.model_add(*e, *x, id);
                     }
@@ -231,8 +248,10 @@ fn run_case(rep: &mut Report, case: u64) {
                         ids.push(a.val.id);
                         (*e, a)
                     }).collect();
-                    st.cs.extend(it);
-                    st.log(format!("extend({:?})", pairs.iter().map(|(e, x)| (e.id(), *x)).collect::<Vec<_>>()));
+                    let shape = if st.rng.chance(1, 2) { 0 } else { st.rng.below(5) };
+                    st.hint_shapes.insert(shape);
+                    st.cs.extend(dress(it, shape));
+                    st.log(format!("extend[hint shape {}]({:?})", shape, pairs.iter().map(|(e, x)| (e.id(), *x)).collect::<Vec<_>>()));
                     for ((e, x), id) in pairs.iter().zip(ids) {
                         st.model_add(*e, *x, id);
                     }
@@ -405,6 +424,9 @@ fn run_case(rep: &mut Report, case: u64) {
     rep.cases_run += 1;
     rep.bump("joins_checked", joins);
     rep.bump("partial_consumptions", consumed_partially);
+    for s in &st.hint_shapes {
+        rep.bump(&format!("sequences_behind_size_hint_shape_{}", s), 1);
+    }
     rep.max("max_amounts_per_entity", max_run);
     for h in &hist {
         rep.op(h.split(|c| c == '(' || c == ' ' || c == ':').next().unwrap_or("?"));
